@@ -219,7 +219,7 @@ def stoich(spec):
 
 
 def all_species(spec):
-    out = list(spec["species"])
+    out = list(spec.get("species", []))
     for r in spec["reactions"]:
         for s in list(r["reactants"]) + list(r["products"]):
             if s not in out:
